@@ -249,7 +249,8 @@ def _r5_sizes(repo, rep, cls):
                   'two lists equally long')
     f = cls.methods['_create_for_element']
     r5.functions.add(f.fq)
-    body = f.body
+    from ..inline import Flat
+    body = Flat(f).body        # private helpers inlined
     # the consuming loop: for i, x in enumerate(A): ... B[i]
     loop = None
     for st in body:
